@@ -436,7 +436,11 @@ fn deliver_checked<M: Machine>(fw: &mut FWorld<M>, dst: u16, stream: usize, styl
         }
         let x = dec::<M>(b);
         if transformed {
-            !(x <= 0.0) && (!x.is_finite() || !M::tspace(b, 0).0.is_finite())
+            !(x <= 0.0) && (!x.is_finite() || !M::tspace(b, 0).0.is_finite() || !M::tspace(b, 0).1.is_finite())
+        } else if M::STREAMS == 1 {
+            // a finite record whose square is not finite in the element type is "huge" data: the
+            // interval may answer with any error, and so may the delivery (validation at the door)
+            !x.is_finite() || !M::tspace(b, 0).1.is_finite()
         } else {
             !x.is_finite()
         }
@@ -458,7 +462,11 @@ fn deliver_checked<M: Machine>(fw: &mut FWorld<M>, dst: u16, stream: usize, styl
                     stats.inc("nonfinite_record_rejected_at_delivery");
                 }
             }
-        } else if expected_err.is_none() && recs[0].iter().chain(recs[1].iter()).any(|&b| nonfinite(b)) {
+        } else if expected_err.is_none()
+            && (recs[0].iter().chain(recs[1].iter()).any(|&b| nonfinite(b))
+                || (M::LOCKSTEP && recs[0].iter().zip(recs[1].iter()).any(|(&a, &b)| !M::tspace(a, b).0.is_finite() || !M::tspace(a, b).1.is_finite()))
+                || (!M::LOCKSTEP && M::FLT != Flt::Int && recs[0].iter().chain(recs[1].iter()).any(|&b| !M::tspace(b, b).1.is_finite() && M::FAMILY == Family::Unpaired)))
+        {
             // two-stream machines: which records were absorbed before the rejection is the
             // library's business; the slot leaves the simulation
             fw.w.take(dst);
